@@ -110,7 +110,9 @@ def run(spec, ctx):
                     cfg.serviceable, cfg.non_serviceable, cfg.hidden = bool(sw & 1), bool(sw & 2), bool(sw & 4)
                     cfg.critSysTerm, cfg.only, cfg.every_pel = bool(sw & 8), bool(sw & 16), bool(sw & 32)
                     cfg.severities = list(groups)
-                    if _pass % 2:
+                    if _pass % 2 or sw % 4 == 3:
+                        # a group may be named more than once, in any order: the chosen SET is what counts
+                        cfg.severities += [rng.choice(groups) for _ in range(rng.randrange(1, 3))] if groups else []
                         rng.shuffle(cfg.severities)
                     noise = [0, 0x1FFF, rng.randrange(0x2000), rng.randrange(0x2000)][_pass % 4] if _pass else rng.randrange(0x2000)
                     for sev in range(256):
@@ -147,6 +149,9 @@ def run(spec, ctx):
             o = Sel(every=rng.random() < 0.1, s=rng.random() < 0.3, N=rng.random() < 0.3, H=rng.random() < 0.3,
                     t=rng.random() < 0.3, only=rng.random() < 0.5,
                     groups=tuple(GROUP_DIGITS[n] for n in rng.sample(names, rng.choice([0, 0, 1, 2, 3]))))
+            if o.groups and rng.random() < 0.3:
+                o = Sel(every=o.every, s=o.s, N=o.N, H=o.H, t=o.t, only=o.only,
+                        groups=o.groups + (rng.choice(o.groups),) * rng.randrange(1, 3))      # -S Critical Critical
             argv = ["-p", d.root, "-n"] + o.argv()
             ctx.current = {"argv": argv[2:], "pels": [(e.name, hex(e.pel.sev), hex(e.pel.flags)) for e in ents]}
             IN_CLI[0] = True
